@@ -45,6 +45,8 @@ type pHandlerInT struct {
 type ProbeReport struct {
 	Rounds int      `json:"rounds"`
 	Bad    []string `json:"bad"`
+	// Known: classes of known findings (known_findings.json) that this run observed again
+	Known []string `json:"known,omitempty"`
 }
 
 func isolationProbe() ProbeReport {
@@ -207,8 +209,57 @@ type oSvc struct{ *oRes }
 type oChild struct{ *oRes }
 type oEarly struct{ *oRes }
 
+// A disposable transient that a singleton received at Build is owned by the root scope, which the provider closes
+// before its singletons: the transient is closed while the singleton holding it is still open. Known finding
+// (C11, class transient-of-singleton); reported as such while it is there.
+type oT struct{ *oRes }
+type oS struct {
+	*oRes
+	t *oT
+}
+
+func transientOfSingletonRound() (known bool, msg string) {
+	defer func() {
+		if v := recover(); v != nil {
+			msg = fmt.Sprintf("panic: %v", v)
+		}
+	}()
+	lg := &oLog{ch: make(chan string, 16)}
+	c := godi.NewCollection()
+	if err := c.AddTransient(func() *oT { return &oT{&oRes{name: "transient", log: lg}} }); err != nil {
+		return false, err.Error()
+	}
+	if err := c.AddSingleton(func(t *oT) *oS { return &oS{&oRes{name: "singleton", log: lg}, t} }); err != nil {
+		return false, err.Error()
+	}
+	p, err := c.Build()
+	if err != nil {
+		return false, err.Error()
+	}
+	if err := p.Close(); err != nil {
+		return false, err.Error()
+	}
+	var evs []string
+	for len(lg.ch) > 0 {
+		evs = append(evs, <-lg.ch)
+	}
+	switch fmt.Sprint(evs) {
+	case "[begin singleton end singleton begin transient end transient]":
+		return false, ""
+	case "[begin transient end transient begin singleton end singleton]":
+		return true, ""
+	}
+	return false, fmt.Sprintf("a singleton built from a disposable transient: Close calls %v", evs)
+}
+
 func orderProbe() ProbeReport {
 	rep := ProbeReport{}
+	rep.Rounds++
+	if known, msg := transientOfSingletonRound(); msg != "" {
+		rep.Bad = append(rep.Bad, "transient-of-singleton: "+msg)
+	} else if known {
+		rep.Known = append(rep.Known, "transient-of-singleton")
+	}
 	for _, life := range []string{"scoped", "transient"} {
 		for _, early := range []bool{false, true} {
 			rep.Rounds++
